@@ -49,25 +49,16 @@ func checkC16(w *Worker) {
 		}
 	}
 	names := []string{"database", "logfile", "date-format", "maxdepth", "today"}
-	w.Explore("precedence", ExploreOpts{ShardDepth: 5, Budgets: map[string]int{"src": srcBudget}}, func(x *Exec) {
-		cfgLoc := x.Choose(4, "input:config-location") // 0 no file, 1 default path, 2 --config, 3 HR_CONFIG
-		L := []int{3, 5, 8}[x.Choose(3, "input:chain-length")]
-		var flagSet, envSet, cfgSet [5]bool
-		for i := 0; i < 5; i++ {
-			flagSet[i] = x.Choose(2, "src:flag-"+names[i]) == 1
-			if i < 4 {
-				envSet[i] = x.Choose(2, "src:env-"+names[i]) == 1
-			}
-			if cfgLoc != 0 {
-				cfgSet[i] = x.Choose(2, "src:config-"+names[i]) == 1
-			}
-		}
+	// cell: one combination of sources. flagVal/envVal say which VALUE a set flag / variable carries: its own
+	// distinguishable one (level 0 / 1) or the documented default (level 3) - a value that happens to equal the
+	// default is still a value that was given, and outranks the configuration file
+	cell := func(x *Exec, cfgLoc int, L int, flagSet, envSet, cfgSet [5]bool, flagVal, envVal [5]int) {
 		level := func(i int) int {
 			switch {
 			case flagSet[i]:
-				return 0
+				return flagVal[i]
 			case envSet[i]:
-				return 1
+				return envVal[i]
 			case cfgSet[i]:
 				return 2
 			}
@@ -123,31 +114,31 @@ func checkC16(w *Worker) {
 			env["HR_CONFIG"] = "env.cfg"
 		}
 		if flagSet[0] {
-			global = append(global, "-d", c16Db[0])
+			global = append(global, "-d", c16Db[flagVal[0]])
 		}
 		if flagSet[1] {
-			global = append(global, "-l", c16Log[0])
+			global = append(global, "-l", c16Log[flagVal[1]])
 		}
 		if flagSet[2] {
-			global = append(global, "--date-format", c16Fmt[0])
+			global = append(global, "--date-format", c16Fmt[flagVal[2]])
 		}
 		if flagSet[3] {
-			global = append(global, "--maxdepth", fmt.Sprint(c16Depth[0]))
+			global = append(global, "--maxdepth", fmt.Sprint(c16Depth[flagVal[3]]))
 		}
 		if flagSet[4] {
 			global = append(global, "--today", c16Today[0].Format(effFmt))
 		}
 		if envSet[0] {
-			env["HR_DATABASE"] = c16Db[1]
+			env["HR_DATABASE"] = c16Db[envVal[0]]
 		}
 		if envSet[1] {
-			env["HR_LOGFILE"] = c16Log[1]
+			env["HR_LOGFILE"] = c16Log[envVal[1]]
 		}
 		if envSet[2] {
-			env["HR_DATE_FORMAT"] = c16Fmt[1]
+			env["HR_DATE_FORMAT"] = c16Fmt[envVal[2]]
 		}
 		if envSet[3] {
-			env["HR_MAXDEPTH"] = fmt.Sprint(c16Depth[1])
+			env["HR_MAXDEPTH"] = fmt.Sprint(c16Depth[envVal[3]])
 		}
 		nsrc := 0
 		for i := 0; i < 5; i++ {
@@ -157,7 +148,7 @@ func checkC16(w *Worker) {
 		if !effToday.IsZero() {
 			ref = append(ref, "--today", effToday.Format(effFmt))
 		}
-		x.Case(fmt.Sprint(cfgLoc, L, flagSet, envSet, cfgSet), nsrc >= 2)
+		x.Case(fmt.Sprint(cfgLoc, L, flagSet, envSet, cfgSet, flagVal, envVal), nsrc >= 2)
 		// every execution observes the settings through csv log (ISO dates reveal the layout), the two registers
 		// restricted by today, and one further command of a rotating list (every command must see the same settings)
 		others := shapeArgs(func(s cmdShape) bool { return !s.Lint && s.Args[0] != "summary" })
@@ -205,6 +196,43 @@ func checkC16(w *Worker) {
 				return
 			}
 		}
+	}
+	w.Explore("precedence", ExploreOpts{ShardDepth: 5, Budgets: map[string]int{"src": srcBudget}}, func(x *Exec) {
+		cfgLoc := x.Choose(4, "input:config-location") // 0 no file, 1 default path, 2 --config, 3 HR_CONFIG
+		L := []int{3, 5, 8}[x.Choose(3, "input:chain-length")]
+		var flagSet, envSet, cfgSet [5]bool
+		for i := 0; i < 5; i++ {
+			flagSet[i] = x.Choose(2, "src:flag-"+names[i]) == 1
+			if i < 4 {
+				envSet[i] = x.Choose(2, "src:env-"+names[i]) == 1
+			}
+			if cfgLoc != 0 {
+				cfgSet[i] = x.Choose(2, "src:config-"+names[i]) == 1
+			}
+		}
+		cell(x, cfgLoc, L, flagSet, envSet, cfgSet, [5]int{0, 0, 0, 0, 0}, [5]int{1, 1, 1, 1, 1})
+	})
+	// a flag or variable whose value equals the documented default, against a configuration file that says otherwise
+	w.Explore("given-value-equals-the-default", ExploreOpts{ShardDepth: 4}, func(x *Exec) {
+		cfgLoc := 1 + x.Choose(3, "input:config-location")
+		i := x.Choose(4, "input:setting")
+		src := x.Choose(3, "input:source-of-the-default-value") // flag, variable, both (flag default, variable distinct)
+		cfgAll := x.Choose(2, "input:config-sets-every-entry") == 1
+		var flagSet, envSet, cfgSet [5]bool
+		flagVal, envVal := [5]int{0, 0, 0, 0, 0}, [5]int{1, 1, 1, 1, 1}
+		cfgSet[i] = true
+		if cfgAll {
+			cfgSet = [5]bool{true, true, true, true, true}
+		}
+		switch src {
+		case 0:
+			flagSet[i], flagVal[i] = true, 3
+		case 1:
+			envSet[i], envVal[i] = true, 3
+		default:
+			flagSet[i], flagVal[i], envSet[i] = true, 3, true
+		}
+		cell(x, cfgLoc, 5, flagSet, envSet, cfgSet, flagVal, envVal)
 	})
 	// explicit configuration file that does not exist is an error; one that exists is loaded
 	w.Explore("explicit-config-file", ExploreOpts{ShardDepth: 2}, func(x *Exec) {
